@@ -59,6 +59,14 @@ def view_method(ex, view, name, args, kw, node):
         ex.assume(z3.And(c.iterable(t), z3.Not(c.one_shot(t)), c.elems_hashable(t), c.content(t) == iso, t != c.NONE,
                          z3.Not(c.intlike(t)), z3.Not(c.is_str(t)), z3.Not(c.is_dict(t))))
         return VVal(t)
+    if view.which == "edges" and name in ("singletons", "empty") and not args and not kw and net.kind != "DH":
+        de = net.f["_edge"]
+        t = c.fresh_id(name)
+        k = 1 if name == "singletons" else 0
+        sel_ = c.setof(lambda e: z3.And(z3.Select(de.keys, e), c.card(z3.Select(de.fields["v"], e)) == k))
+        ex.assume(z3.And(c.iterable(t), z3.Not(c.one_shot(t)), c.elems_hashable(t), c.content(t) == sel_, t != c.NONE,
+                         z3.Not(c.intlike(t)), z3.Not(c.is_str(t)), z3.Not(c.is_dict(t))))
+        return VVal(t)
     if name == "items":
         return VDictItems(net.f["_node_attr" if view.which == "nodes" else "_edge_attr"])
     raise Unsupported("view method %s.%s" % (view.which, name))
